@@ -110,7 +110,9 @@ STANDARD = {
                 "catch fruits 0-3 x droplets 0-2 x tiny 0-4; mania objects 0-4 x holds 0-2; thorough: 8 / 12 / 5x3x6 / 6x3) x every miss count "
                 "0..N+1 x accuracy grid 0..100 step 0.25 plus every exactly achievable accuracy +-1e-7 x priorities x stable/lazer/lazer+CL; "
                 "remaining cases are sampled large shapes. oracle enumerates all hit-result distributions with the same misses using the "
-                "crate's public ScoreState::accuracy. distinct = distinct shapes with >= 1 object",
+                "crate's public ScoreState::accuracy; mania shapes of 700-1600 objects (one sampled case in 8) are judged by a closed-form optimum "
+                "self-checked against enumeration; one request in three is preceded by the same request for a neighbouring shape. "
+                "distinct = distinct shapes with >= 1 object",
         "required": {"class:exhaustive-shape": 1, "class:sampled-shape": 1},
     },
     "C14": {
@@ -119,7 +121,8 @@ STANDARD = {
         "thorough": 2000000,
         "rule": "case = (map, reachable mode, mods incl. mirror/HR reflections, key mods, HO/IN/RD) with n over 0..total+2 (sampled above 40); "
                 "independent reference counts from public fields of the converted map; counted(n) == min(n,total); counts and max_combo "
-                "non-decreasing; n >= total == unlimited; is_convert flag. non-trivial = total units >= 2",
+                "non-decreasing; n >= total == unlimited; is_convert flag; HoldOff: holds count as notes; Invert: per column (notes + 2*holds) - 1 "
+                "hold notes. non-trivial = total units >= 2",
         "required": {"class:convert": 1, "mode:osu": 1, "mode:taiko": 1, "mode:catch": 1, "mode:mania": 1},
     },
     "C16": {
@@ -282,7 +285,9 @@ C01_RULE = ("case = pool of 3-6 maps (bpm tie setups, tie-heavy maps, generated/
             "Difficulty values and a third of the calls on freshly spawned threads; first-seen table keyed by (map, op, settings, "
             "score): every later observation must reproduce the first; the map is compared with its clone after every by-reference "
             "call. The same seeded job list is executed by N separate processes (plain / 64 MiB of junk allocated first / different "
-            "environment size) and the history logs are joined on the key. non-trivial = case ran to completion with >= 1 repeated key")
+            "environment size / cases in reverse order) and the history logs are joined on the key. Every eighth pool has a 1000-1700 object "
+            "map, one in 192 (thorough 768) a 1400-1700 note mania map whose accuracy-only plays need seconds of hit-result search and are "
+            "observed alternately on an idle core and under six spinning threads. non-trivial = case ran to completion with >= 1 repeated key")
 
 
 def c01(prop, tier, seed):
@@ -370,7 +375,8 @@ def c01(prop, tier, seed):
 C10_RULE = ("case = 4 direct StrainsVec operation programs (pushes of positive/subnormal/huge values and zero runs up to 3000, then "
             "len/sum/iter/into_vec and retain+sort+transmute, sorted_non_zero_iter_mut rescaling, retain) plus one map (40% with "
             "hour-long gaps / objects before t=0) x every reachable mode x {difficulty, strains, performance, gradual difficulty "
-            "next/nth/last walk, gradual performance schedule}; every result digest is logged by the four binaries rel (default "
+            "next/nth/last walk, gradual performance schedule, map-level API (check_suspicion, bpm, break time, attribute builder), "
+            "converted map}; 20% of the maps are mid-size maps built from rhythm phases; every result digest is logged by the four binaries rel (default "
             "features), raw (raw_strains), sync, rawsync and the logs are joined key by key. non-trivial = map with >= 2 objects")
 
 
